@@ -13,6 +13,7 @@ C14_CLAUSES = {'PressurePartsNonNegative', 'FrictionClosedForm',
                'PressureLedgerAdvance', 'TotalIsSumOfPartsAndRegions',
                'EachGridCountedExactlyOnce', 'ReportedTotalIsSumOfSteps',
                'TotalEqualsClosedForm', 'PressureTablePrintsTheLedger',
+               'ActiveRegionContainsTheStep',
                'SweepRuns'}
 C15_CLAUSES = {'PeakFoldConsistent', 'PeakCoolantIsRunningMaximum',
                'PeakDuctIsRunningMaximumPerDuct', 'PeakPinIsRunningMaximum',
